@@ -117,13 +117,29 @@ class StreamTable:
                 out.append(E.raise_(s2, "builtins.KeyError"))
         return out
 
+    def m_pop(self, E, st, obj, args, kw):
+        """T.pop(k, default): removes the entry and returns it if present, else returns the default (KeyError without a default)"""
+        k = _keyterm(args[0])
+        out = []
+        for s2, ok in E.branch(st, z3.Select(st.get(obj, "dom"), k)):
+            if ok:
+                v = _tuple_of(s2, obj, k)
+                s2.set(obj, "dom", z3.Store(s2.get(obj, "dom"), k, z3.BoolVal(False)))
+                s2.event("table_delete", k)
+                out.append(Res(s2, v))
+            elif len(args) > 1:
+                out.append(Res(s2, args[1]))
+            else:
+                out.append(E.raise_(s2, "builtins.KeyError"))
+        return out
+
     def m_keys(self, E, st, obj, args, kw):
         return [Res(st, obj)]
 
     def to_list(self, E, st, obj):
         return KeySnapshot(st.get(obj, "dom"))
 
-    methods = {"__getitem__": m_getitem, "get": m_get, "__setitem__": m_setitem, "__delitem__": m_delitem, "keys": m_keys}
+    methods = {"__getitem__": m_getitem, "get": m_get, "__setitem__": m_setitem, "__delitem__": m_delitem, "keys": m_keys, "pop": m_pop}
 
 
 _snap_count = [0]
